@@ -35,6 +35,8 @@ def declared_mutexes(cls):
     """every group declared by any class in the MRO (not just the one attribute lookup finds)"""
     opt, req = [], []
     for b in cls.__mro__:
+        if not isinstance(b.__dict__.get("optionalMutexes", []), (list, tuple)) or not isinstance(b.__dict__.get("requiredMutexes", []), (list, tuple)):
+            continue          # not a container (reported by the table obligations): reading it here would use it up
         for g in b.__dict__.get("optionalMutexes", []) or []:
             if list(g) not in opt:
                 opt.append(list(g))
